@@ -33,6 +33,8 @@ type FenceTx struct {
 
 func (tx *FenceTx) Commit() error {
 	if err := tx.TargetTx.Commit(); err != nil {
+		tx.clearFenceTx()
+		_ = tx.TargetFenceTx.Rollback()
 		return err
 	}
 
@@ -41,12 +43,12 @@ func (tx *FenceTx) Commit() error {
 }
 
 func (tx *FenceTx) Rollback() error {
-	if err := tx.TargetTx.Rollback(); err != nil {
-		return err
-	}
-
+	err := tx.TargetTx.Rollback()
 	tx.clearFenceTx()
-	return tx.TargetFenceTx.Rollback()
+	if ferr := tx.TargetFenceTx.Rollback(); err == nil {
+		err = ferr
+	}
+	return err
 }
 
 func (tx *FenceTx) clearFenceTx() {
